@@ -349,6 +349,13 @@ pub fn run(args: &Args) -> i32 {
         ("https://10.0.0.1:65535/p?", true, "10.0.0.1:65535", "/p?"),
         ("https://[fd00::1]:4433/x", true, "[fd00::1]:4433", "/x"),
         ("https://EXAMPLE.com/Path", true, "example.com", "/Path"),
+        // the fragment is not part of the request target
+        ("https://localhost/room?id=42#chat", true, "localhost", "/room?id=42"),
+        ("https://localhost#top", true, "localhost", "/"),
+        ("https://localhost/a#", true, "localhost", "/a"),
+        ("https://localhost/a?#", true, "localhost", "/a?"),
+        ("https://localhost:4433/a#b?c=d", true, "localhost:4433", "/a"),
+        ("https://localhost/?q=%23notfragment#frag", true, "localhost", "/?q=%23notfragment"),
         ("http://localhost:4433/", false, "", ""),
         ("wss://localhost/", false, "", ""),
         ("ftp://localhost/", false, "", ""),
